@@ -100,13 +100,18 @@ impl RelayTransport {
             "non matching bufs & recv_infos"
         );
         let mut num_msgs = 0;
-        for i in 0..bufs.len() {
-            let buf_out = &mut bufs[i];
-            let meta_out = &mut metas[i];
-            let recv_info = &mut recv_infos[i];
+        // Slots are filled front to back.  A dropped datagram does not use up a slot.
+        while num_msgs < bufs.len() {
+            let buf_out = &mut bufs[num_msgs];
+            let meta_out = &mut metas[num_msgs];
+            let recv_info = &mut recv_infos[num_msgs];
             let dm = match self.poll_recv_queue(cx) {
                 Poll::Ready(Some(recv)) => recv,
                 Poll::Ready(None) => {
+                    if num_msgs > 0 {
+                        // Hand over what we already have, the next poll reports the error.
+                        break;
+                    }
                     error!("relay_recv_channel closed");
                     return Poll::Ready(Err(io::Error::new(
                         io::ErrorKind::NotConnected,
@@ -119,10 +124,13 @@ impl RelayTransport {
             };
 
             // This *tries* to make the datagrams fit into our buffer by re-batching them.
-            let num_segments = dm
-                .datagrams
-                .segment_size
-                .map_or(1, |ss| buf_out.len() / u16::from(ss) as usize);
+            // We always take at least one segment: if not even a single segment fits into
+            // the buffer it is dropped below, instead of staying at the front of the queue
+            // forever and blocking everything behind it.
+            let num_segments = dm.datagrams.segment_size.map_or(1, |ss| {
+                let segment_size = u16::from(ss) as usize;
+                std::cmp::max(1, buf_out.len() / segment_size)
+            });
             let datagrams = dm.datagrams.take_segments(num_segments);
             let empty_after = dm.datagrams.contents.is_empty();
             let dm = RelayRecvDatagram {
@@ -144,7 +152,9 @@ impl RelayTransport {
                     segment_size = ?dm.datagrams.segment_size,
                     "dropping received datagram: noq buffer too small"
                 );
-                break;
+                // Carry on with the next datagram.  We must not return `Poll::Pending`
+                // from here: the queue was not polled, so no waker would be registered.
+                continue;
                 // In theory we could put some logic in here to fragment the datagram in case
                 // we still have enough room in our `buf_out` left to fit a couple of
                 // `dm.datagrams.segment_size`es, but we *should* have cut those datagrams
